@@ -17,6 +17,9 @@ SPEC = dict(
         job('future-tsan', 'h_future', 'run', variant='tsan', sources=SRC, cflags=['-DVERIF_NO_PTSHIMS'], cases={Q: 1440, T: 40000}, procs=16, weight=1, timeout={Q: 300, T: 3000}, deadlock=True),
         job('future-asan', 'h_future', 'run', variant='asan', sources=SRC + ['interpose/pthread_shims.cpp'], cases={Q: 2400, T: 80000}, procs=16, weight=1, timeout={Q: 300, T: 3000}, deadlock=True),
         job('future-plain', 'h_future', 'run', variant='plain', sources=SRC + ['interpose/pthread_shims.cpp'], cases={Q: 4800, T: 160000}, procs=16, weight=1, timeout={Q: 300, T: 3000}, deadlock=True),
+        # many short-lived processes: every process exit destroys the pool (spawned/retired/sleeping workers in every mix) - hangs in ~ThreadPool show here
+        job('future-exit-plain', 'h_future', 'run', variant='plain', sources=SRC + ['interpose/pthread_shims.cpp'], cases={Q: 1280, T: 10240}, procs={Q: 64, T: 256}, weight=1, timeout={Q: 300, T: 600}, deadlock=True),
+        job('future-exit-asan', 'h_future', 'run', variant='asan', sources=SRC + ['interpose/pthread_shims.cpp'], cases={Q: 640, T: 5120}, procs={Q: 64, T: 256}, weight=1, timeout={Q: 300, T: 600}, deadlock=True),
     ],
     floors={Q: dict(jobs=100000, **{'set:points_hit': 17, 'set:pool_configs': 16}), T: dict(jobs=2000000, **{'set:points_hit': 18, 'set:pool_configs': 16})},
 )
